@@ -55,9 +55,15 @@ fn value<T: Gen>(all: &Alts<T>, alts: &[usize]) -> T {
     v
 }
 
+/// label of the last alternative of every type: the fully populated value (every optional member present at every level,
+/// every list with two items)
+pub const FULL: &str = "=FULL(every member present, lists of two, all levels)";
+
 fn gen_alts<T: Gen>() -> Alts<T> {
     // XML documents may carry offset timestamps only through outputs; the codec itself is symmetric, so both are exercised
-    T::alts(Pos::Xml, XML_DEPTH)
+    let mut a = T::alts(Pos::Xml, XML_DEPTH);
+    a.push((FULL.to_owned(), std::sync::Arc::new(|v: &mut T| *v = T::full(Pos::Xml, 2 * XML_DEPTH + 2))));
+    a
 }
 
 impl<T> XmlDriver for RootCodec<T>
